@@ -70,12 +70,11 @@ def ledger_stream(rng, n):
                 return i, "%s pairs stored, the query has %d" % (f[1], pairs)
             if int(f[5]) != 0:
                 return i, "%s blocks of the library are still allocated after the table was freed" % f[5]
-            if int(f[3]) != 1 + 5 * pairs:
-                return i, ("qparse_queries made %s allocations for %d pairs; a private copy of the query, two words and "
-                           "one entry (object, name, value) per pair are %d" % (f[3], pairs, 1 + 5 * pairs))
+            # (the NUMBER of allocations the call makes is not judged: an implementation detail - a
+            #  missing private copy of the query text shows as a use-after-free in `queryalias`)
         return None
     return Stream("query-allocation-ledger", ops, nomodel=True, harness="encodeq", lib="libqw.a", wraps=(), oracle=oracle,
-                  note="allocation attempts inside qparse_queries = 1 + 5 * pairs, none left")
+                  note="pairs stored; no block of the library left after the table is freed")
 
 
 def py_parse_queries(q, eq, sep):
